@@ -867,7 +867,7 @@ pub fn class_string(u: &mut Choice, alphabet: &[&[u8]], maxsyms: usize, out: &mu
 use crate::real::{Entry, C_IGNORE_REQ, C_IGNORE_RESP, C_MULTILINE, C_MULTISPACE_REQ, C_MULTISPACE_RESP,
     C_SPACES_AFTER_NAME, C_SPACE_BEFORE_FIRST};
 
-pub const N_FAMILIES: usize = 40;
+pub const N_FAMILIES: usize = 48;
 
 pub fn family_name(f: usize) -> &'static str {
     [
@@ -884,6 +884,9 @@ pub fn family_name(f: usize) -> &'static str {
         "many short whitespace runs in a value", "long SP run then a fold continuation", "SP run inside an ignored line",
         "reason phrase with an interior SP run", "reason phrase with a leading SP run (default-accepted)",
         "SP run after the status code, no reason", "long run of leading SP/HTAB before every header line (space-before-first + ignore)",
+        "folded lines with bare-LF line ends", "folded lines, every physical line 8 bytes long (CRLF)", "folded lines, every physical line 16 bytes long (LF)",
+        "folded lines of 17 bytes with HTAB lead", "header lines of exactly 8 bytes (LF)", "header lines of exactly 16 bytes (CRLF)",
+        "ignored lines of exactly 8 bytes", "whitespace-only folds with bare LF then a visible byte",
     ][f % N_FAMILIES]
 }
 
@@ -1127,12 +1130,67 @@ pub fn family(f: usize, size: usize) -> (Entry, u8, Vec<u8>) {
             b.extend_from_slice(b"\r\n\r\n");
             (Entry::RespParse, 0, b)
         }
-        _ => {
+        39 => {
             b.extend_from_slice(req);
             b.extend_from_slice(b"A: b\r\n");
             rep(&mut b, b"  \t x\r\n", size);
             b.extend_from_slice(b"\r\n");
             (Entry::ReqCfg, C_SPACE_BEFORE_FIRST | C_IGNORE_REQ, b)
+        }
+        // line-length / line-end periodicities (a per-line search for the previous line break
+        // that fails for one line-end style or one length class re-scans the value so far)
+        40 => {
+            b.extend_from_slice(b"HTTP/1.1 200 OK\n");
+            b.extend_from_slice(b"A: b");
+            rep(&mut b, b"\n c", size);
+            b.extend_from_slice(b"\n\n");
+            (Entry::RespCfg, C_MULTILINE, b)
+        }
+        41 => {
+            b.extend_from_slice(resp);
+            b.extend_from_slice(b"A: b");
+            rep(&mut b, b"\r\n cdefg", size); // physical line " cdefg\r\n" = 8 bytes
+            b.extend_from_slice(b"\r\n\r\n");
+            (Entry::RespCfg, C_MULTILINE, b)
+        }
+        42 => {
+            b.extend_from_slice(b"HTTP/1.1 200 OK\n");
+            b.extend_from_slice(b"A: b");
+            rep(&mut b, b"\n cdefghijklmnop", size); // " cdefghijklmnop\n" = 16 bytes
+            b.extend_from_slice(b"\n\n");
+            (Entry::RespCfg, C_MULTILINE, b)
+        }
+        43 => {
+            b.extend_from_slice(resp);
+            b.extend_from_slice(b"A: b");
+            rep(&mut b, b"\r\n\tcdefghijklmnop", size); // 17 bytes
+            b.extend_from_slice(b"\r\n\r\n");
+            (Entry::RespCfg, C_MULTILINE, b)
+        }
+        44 => {
+            b.extend_from_slice(b"GET / HTTP/1.1\n");
+            rep(&mut b, b"ab: cde\n", size); // 8 bytes
+            b.extend_from_slice(b"\n");
+            (Entry::ReqParse, 0, b)
+        }
+        45 => {
+            b.extend_from_slice(resp);
+            rep(&mut b, b"Abcd: efghijkl\r\n", size); // 16 bytes
+            b.extend_from_slice(b"\r\n");
+            (Entry::RespParse, 0, b)
+        }
+        46 => {
+            b.extend_from_slice(req);
+            rep(&mut b, b"bad lin\n", size); // 8 bytes
+            b.extend_from_slice(b"A: b\r\n\r\n");
+            (Entry::ReqCfg, C_IGNORE_REQ, b)
+        }
+        _ => {
+            b.extend_from_slice(b"HTTP/1.1 200 OK\n");
+            b.extend_from_slice(b"A:");
+            rep(&mut b, b"\n \t", size);
+            b.extend_from_slice(b"\n x\n\n");
+            (Entry::RespCfg, C_MULTILINE, b)
         }
     }
 }
